@@ -259,6 +259,11 @@ func (d *DosNode) Start() {
 
 func getBootIps(bootStrapUrl string) []string {
 	req, err := http.NewRequest("GET", bootStrapUrl, nil)
+	if err != nil {
+		// the URL comes from the bridge contract: one that does not parse leaves req nil,
+		// and client.Do dereferences it
+		return nil
+	}
 	client := &http.Client{}
 	resp, err := client.Do(req)
 	if err != nil {
